@@ -77,8 +77,12 @@ static void gen(Case& c)
    }
    else if(mode == 2)
       for(int b : exactBools) c.recs.push_back(Rec("bool").add(b).add(R(0, 1)));
-   // known finding C03/lifting-corrupts-lp: exclude exactly LIFTING = true
-   if(knownKey("lifting-corrupts-lp"))
+   bool c04 = opts().x.count("prop") && opts().x["prop"] == "C04";
+   // stage exactbasis of C04: the claim is made for FORCEBASIC = true
+   if(c04) c.recs.push_back(Rec("bool").add((int) SoPlex::FORCEBASIC).add(1));
+   // known finding C03/lifting-corrupts-lp: exclude exactly LIFTING = true (under the C04 stage always: LIFTING changes the
+   // LP itself, which is recorded under C03 / C20 and would only be re-reported here)
+   if(knownKey("lifting-corrupts-lp") || c04)
       for(auto& r : c.recs)
          if(r.tag == "bool" && r.i(0) == SoPlex::LIFTING && r.i(1) != 0)
          {
@@ -231,7 +235,7 @@ static Verdict runInner(const Case& c)
       }
       // C04 (stage exactbasis): the rational vectors are exactly the basic solution of the returned basis - every nonbasic
       // variable sits exactly on the bound its status names, basic columns have zero reduced cost, basic rows zero dual
-      if(sp.hasBasis())
+      if(sp.hasBasis() && sp.boolParam(SoPlex::FORCEBASIC))
       {
          std::vector<VarStatus> rs(m + 1), cs(n + 1);
          sp.getBasis(rs.data(), cs.data());
